@@ -42,6 +42,7 @@ fn gen(rng: &mut Rng, tier: Tier) -> Vec<Case> {
         let mg = rng.chance(1, 4);
         let mut h = gen_hist(rng, n, if small { 14 } else { 600 }, false, mg, base);
         if !small && rng.chance(1, 2) { let off = base + 50_000 + rng.below(1000); for k in 0..3u64 { h.init.push((off + k, off + 5 + 2 * k, 900 + k)); } } // a separated nested stack
+        if i % 6 == 5 { h.lift_to_top(rng.below(3)); } // at the top of the coordinate type
         out.push(Case::new(if small { "boundary" } else { "random" }, enc(&h)));
     }
     out
@@ -50,7 +51,7 @@ fn gen(rng: &mut Rng, tier: Tier) -> Vec<Case> {
 pub fn prop() -> PropDef {
     PropDef {
         id: "C20",
-        rule: "corpus, then histories over non-empty intervals: small (0-7 intervals, coordinates 0..20, intervals starting at 0, duplicates, nested stacks, book-ended chains) and large (5-40 intervals of length <= 1200 in separated clusters at offsets 0, < 2^45 and 2^63; optional merge in the history). Non-trivial: two stored intervals touch, overlap or nest. Thorough adds the exhaustive small scope: every sequence of <= 3 non-empty intervals over 0..=5 in several histories. Distinct = distinct input token sequence.",
+        rule: "corpus, then histories over non-empty intervals: small (0-7 intervals, coordinates 0..20, intervals starting at 0, duplicates, nested stacks, book-ended chains) and large (5-40 intervals of length <= 1200 in separated clusters at offsets 0, < 2^45 and 2^63; optional merge in the history; every sixth history lifted so that its greatest stop is u64::MAX-1-{0,1,2}). Non-trivial: two stored intervals touch, overlap or nest. Thorough adds the exhaustive small scope: every sequence of <= 3 non-empty intervals over 0..=5 in several histories. Distinct = distinct input token sequence.",
         observable: "Lapper::depth() collected: (start, stop, depth) runs, or panic",
         gen, exec, shrink, child: None,
     }
